@@ -219,7 +219,15 @@ fn transform_call(input: &Value) -> Value {
     };
     let queries = watchdog::verif_hooks::transform_queries();
     let qf = queries.iter().find(|(n, _)| *n == qname).map(|(_, f)| *f);
-    let r2 = qf.map(|qf| catch_unwind(AssertUnwindSafe(|| qf(raw.clone()))));
+    // ... whatever the watchdog is configured for (the exported queries take no configuration argument, so
+    // the stored configuration must not influence their result): asked under every target's configuration
+    let mut r2s = Vec::new();
+    if let Some(qf) = qf {
+        for target in watchdog::verif_hooks::targets() {
+            watchdog::verif_hooks::init(target);
+            r2s.push(catch_unwind(AssertUnwindSafe(|| qf(raw.clone()))));
+        }
+    }
     let enc = |r: &Result<HttpRequestResult, Box<dyn std::any::Any + Send>>| match r {
         Err(_) => json!({"k": "trap", "msg": crate::exec::last_panic()}),
         Ok(o) => {
@@ -229,10 +237,7 @@ fn transform_call(input: &Value) -> Value {
         }
     };
     let out = enc(&r);
-    let same_query = match &r2 {
-        None => true,
-        Some(r2) => enc(r2) == out,
-    };
+    let same_query = r2s.iter().all(|r2| enc(r2) == out);
     json!({"fn": "transform", "endpoint": ep, "kind": input["kind"], "cls": input["cls"], "hs": input["hs"], "status": status_s,
            "out": out, "queryAgrees": same_query})
 }
@@ -285,6 +290,21 @@ fn block_case(input: &Value) -> Value {
     let original = uni.blocks[&2].clone();
     let mut mutated = original.clone();
     mutated.txdata = m.iter().map(|i| original.txdata[i - 1].clone()).collect();
+    // repeated occurrences may differ from the first in their witness only: same transaction id (the merkle tree
+    // is built from ids, which do not cover witness data), different bytes and different wtxid
+    if let Some(wit) = input["wit"].as_str() {
+        let mut seen = std::collections::BTreeSet::new();
+        for (pos, i) in m.iter().enumerate() {
+            if !seen.insert(*i) {
+                for inp in mutated.txdata[pos].input.iter_mut() {
+                    inp.witness = match wit {
+                        "strip" if !inp.witness.is_empty() => bitcoin::Witness::new(),
+                        _ => bitcoin::Witness::from_slice(&[vec![pos as u8, 0x51u8], vec![salt as u8]]),
+                    };
+                }
+            }
+        }
+    }
     let commit_self = input["commit"].as_str() == Some("self");
     if commit_self && !mutated.txdata.is_empty() {
         // the header honestly commits to the (possibly repeating) list
@@ -327,7 +347,7 @@ fn block_case(input: &Value) -> Value {
         }
     };
     let _ = original.header.merkle_root.to_byte_array();
-    json!({"fn": "block", "n": n, "m": m, "case": input["case"], "rootSame": root_same, "commit": if commit_self { "self" } else { "original" },
+    json!({"fn": "block", "n": n, "m": m, "case": input["case"], "wit": input["wit"], "rootSame": root_same, "commit": if commit_self { "self" } else { "original" },
            "out": {"verdict": verdict, "admitted": admitted}})
 }
 
